@@ -1,16 +1,16 @@
 #!/bin/bash
-# usage: tools/tryseed.sh <property> <patch.diff> [check args...]  - applies a seeded change to /repo, runs the check, undoes it
-prop="$1"; patch="$2"; shift 2
-cd /repo || exit 3
-git apply --check "$patch" || { echo "PATCH DOES NOT APPLY"; exit 3; }
-git apply "$patch"
+# usage: tools/tryseed.sh <property> <patch.diff> [check args...]
+# Runs a check against a seeded change in a scratch worktree of /repo's HEAD (plus /repo's uncommitted changes are
+# NOT carried over); /repo and the committed evidence files are not touched.
+prop="$1"; patch="$(readlink -f "$2")"; shift 2
+wt=$(mktemp -d /tmp/ts-XXXXXX); rmdir "$wt"
+git -C /repo worktree add -q --detach "$wt" HEAD || exit 3
+trap 'git -C /repo worktree remove --force "$wt" 2>/dev/null; rm -rf "$wt" "$wt-ev" "$wt.out"' EXIT
+git -C "$wt" apply "$patch" || { echo "PATCH DOES NOT APPLY"; exit 3; }
+mkdir -p "$wt-ev"
 cd /verif
-cp -f evidence/$prop.json /tmp/tryseed.$$.ev 2>/dev/null
-./check "$prop" "$@" > /tmp/tryseed.$$.out 2>&1; rc=$?
-grep -E "^(VIOLATION|KNOWN-FINDING|INCONCLUSIVE|OK)" /tmp/tryseed.$$.out | cut -c1-220 | sort | uniq -c | head -20
-grep -E "violation in" /tmp/tryseed.$$.out | cut -c1-260 | head -4
+VERIF_REPO="$wt" VERIF_EVIDENCE_DIR="$wt-ev" ./check "$prop" "$@" > "$wt.out" 2>&1; rc=$?
+grep -E "^(VIOLATION|KNOWN-FINDING|INCONCLUSIVE|OK)" "$wt.out" | cut -c1-220 | sort | uniq -c | head -20
+grep -E "violation in" "$wt.out" | cut -c1-260 | head -4
 echo "exit=$rc"
-rm -f /tmp/tryseed.$$.out
-git -C /repo checkout -- . 
-[ -f /tmp/tryseed.$$.ev ] && mv -f /tmp/tryseed.$$.ev /verif/evidence/$prop.json
 exit $rc
